@@ -554,7 +554,7 @@ class PathRelations(Part):
                         main(["-a", "-p", "-s", "saltForTest", "--preserve-host-bits", "0", "-i", a, "-o", b])
                     else:
                         anonymize_files(a, b, anon_pwd=True, anon_ip=True, salt="saltForTest", preserve_suffix_v4=0, preserve_suffix_v6=0)
-                except BaseException as e:  # noqa
+                except (Exception, SystemExit) as e:
                     exc = e
             os.chdir(cwd)
             res.evals += 1
